@@ -327,12 +327,15 @@ func ruleR07j(c *Ctx, rule string, rels []string, floorArms int, only ...string)
 			}
 			self, _ := info.Defs[fd.Name].(*types.Func)
 			recursive := false
-			ast.Inspect(fd.Body, func(x ast.Node) bool {
-				if call, ok := x.(*ast.CallExpr); ok && self != nil && calleeFunc(call, info) == self {
-					recursive = true
-				}
-				return !recursive
-			})
+			// directly, or through the helpers it calls (a loop over the children extracted into a function)
+			for _, hd := range c.withHelpers(rel, fd, 2) {
+				ast.Inspect(hd.Body, func(x ast.Node) bool {
+					if call, ok := x.(*ast.CallExpr); ok && self != nil && calleeFunc(call, info) == self {
+						recursive = true
+					}
+					return !recursive
+				})
+			}
 			if !recursive {
 				continue // not a tree walk: a function that looks at one node picks the fields it needs
 			}
